@@ -22,12 +22,14 @@ RULE = (
     'sub-cell point lattice (cell interiors 1/4, 1/2, 3/4, every grid line and corner, lowest/highest line) on three '
     'grids, exact corner pass-throughs, one antimeridian crossing in both directions as only/first/middle/last '
     'segment, all 3- and 4-point paths of a reduced lattice, altitude/time axes, 0-2 state x 0-3 integrated '
-    'variables; a case is non-trivial when some segment crosses >= 1 grid line or is a repeated point'
+    'variables, a scale axis of legs from 1 cm to 10 m (1e-7..1e-5 degree and just below/above 0.5, 1, 2, 10 m) straddling a grid '
+    'line / corner / the antimeridian, touching it, or inside one cell, alone and between ordinary legs; a case is non-trivial when some segment crosses >= 1 grid line or is a repeated point'
 )
 ASSUMPTIONS = [
     'shapely is not installed: AEIC.gridding.grid is imported with a harness-side stub for shapely.geometry.Polygon (only grid_polygon uses it)',
     'all points lie within [lowest grid line, highest grid line]; poles and more than one antimeridian crossing are excluded',
-    'coordinates are multiples of 0.001 degree; nothing is claimed between lattice points',
+    'coordinates are multiples of 0.001 degree (1e-7 degree in the tiny-leg sub-lattices); nothing is claimed between lattice points',
+    'sums are compared to 1e-9 + 5e-8 m / (geodesic length of the segment): float64 radians and the geodesic solver resolve a few nanometres (largest deviation of the unchanged code on the 3 300 tiny legs: 4.8e-9 m / length)',
     'ordinary segment: sum of pieces / value must lie in [1, R] (to 1e-9), R = (sum of geodesic lengths of the oracle intersection polyline) / (geodesic length of the segment); R = 1 inside one cell',
     'antimeridian segment: sum of pieces / value must lie in [1 - 1e-9, 1 + 2e-3] (route across the antimeridian is not prescribed by the conservation clause)',
     'one long-lived Gridder per grid and worker (repeated calls on the same object)',
@@ -56,14 +58,14 @@ def conservation(ev):
         return vio  # pieces cannot be grouped by segment: nothing below would be meaningful
     for j, arr in enumerate(tab['iv']):
         vals = R.VALS[p['vals']][j]
-        lo_t = hi_t = 0.0
+        lo_t = hi_t = tol_t = 0.0
         seg_bad = False
         for k, s in enumerate(segs):
             ex = s['exact']
             v = float(vals[k])
             pcs = arr[tags == k]
             ssum = float(pcs.sum())
-            where = f'integrated variable {j}, segment {k} {list(s["a"])}->{list(p["pts"][k + 1])} mdeg, value {v}'
+            where = f'integrated variable {j}, segment {k} {list(s["a"])}->{list(p["pts"][k + 1])} (1/{p["unit"]} deg), value {v}'
             if not np.all(np.isfinite(pcs)):
                 f = 'C04-antimeridian-same-point-nan' if (ex['zero'] and s['am']) else None
                 vio.append(V('non-finite', f'{where}: pieces {pcs.tolist()}', finding=f))
@@ -79,7 +81,8 @@ def conservation(ev):
                 r = sum(x['raw'] for x in ex['pieces'])
                 lo, hi = v, v * max(r, 1.0)
                 what = f'allowed [{lo!r}, {hi!r}] (oracle map-line excess ratio {r!r} over {len(ex["pieces"])} intervals)'
-            tol = RTOL * max(abs(v), 1e-300)
+            tol = R.ratio_tol(ex['L']) * max(abs(v), 1e-300)
+            tol_t += tol
             lo_t += lo
             hi_t += hi
             if np.any(pcs < -tol):
@@ -92,7 +95,7 @@ def conservation(ev):
                 seg_bad = True
         tot = float(np.sum(arr))
         if not seg_bad and not orphan.any():
-            tol = RTOL * max(sum(abs(float(x)) for x in vals[:nseg]), 1e-300)
+            tol = tol_t + RTOL * max(sum(abs(float(x)) for x in vals[:nseg]), 1e-300)
             if not (lo_t - tol <= tot <= hi_t + tol):
                 vio.append(V('total', f'integrated variable {j}: gridded total {tot!r} outside [{lo_t!r}, {hi_t!r}]'))
     return vio
